@@ -40,7 +40,13 @@ Definition vt_eqb (a b : vt) : bool := vt_code a =? vt_code b.
    4 integer NumericValue without FloatingPointValue, 5 ReferencedFrameNumber,
    6 ReferencedSegmentNumber, 7 PixelOriginInterpretation, 8 FiducialUID,
    9 multi-point graphic, 10/11/12 the TCOORD alternatives, 13
-   ReferencedWaveformChannels, >= 20 attributes that no highdicom constructor
+   ReferencedWaveformChannels; the attributes that the CODED ENTRIES of the
+   item carry beyond code value / scheme designator / meaning (long / URN
+   form of the value, scheme version, context group identification and
+   extension, mapping resource, equivalent codes - numbered by the harness):
+   14 of the concept name (ConceptNameCodeSequence[0]), 15 of the value of a
+   CODE item, 16 of the unit and 17 of the qualifier of a NUM item;
+   >= 20 attributes that no highdicom constructor
    writes, e.g. 20 ObservationUID, 21 ObservationDateTime),
    children (ContentSequence; [] = absent or empty) *)
 Definition attrs := list (Z * list Z).
@@ -291,7 +297,13 @@ Definition get_evidence_series (d : doc) (current_only : bool) : list (Z * Z) :=
    whole tree in place and differ only in the Python type of `.content`. *)
 Definition k_template : Z := 1.
 Definition k_separate : Z := 2.
-Definition root_key (k : Z) : bool := (k =? k_template) || (k =? k_separate).
+(* the concept name is copied as the whole ConceptNameCodeSequence, i.e. the coded entry
+   with every attribute it carries (key 14), not just the code value *)
+Definition k_name_entry : Z := 14.
+Definition k_code_entry : Z := 15.
+Definition k_unit_entry : Z := 16.
+Definition k_qualifier_entry : Z := 17.
+Definition root_key (k : Z) : bool := (k =? k_template) || (k =? k_separate) || (k =? k_name_entry).
 
 Definition reroot (it : item) : item :=
   Item (i_vt it) (i_tag it) 0 None
@@ -345,10 +357,15 @@ Definition srread (d : doc) : res (sr_class * doc) :=
 Definition ko_ref_item (r : Z * Z * bool) : item :=
   match r with (u, c, img) => Item (if img then IMAGE else COMPOSITE) 260753009 1 (Some (u, c)) [] [] end.
 
-Definition ko_content (title : Z) (descr : option Z) (refs : list (Z * Z * bool)) : res item :=
+(* tx: what the coded entry given as document title carries beyond value / scheme / meaning
+   ([] = nothing: no attribute 14) *)
+Definition name_entry_attrs (tx : list Z) : attrs :=
+  match tx with [] => [] | _ => [(14, tx)] end.
+
+Definition ko_content (title : Z) (tx : list Z) (descr : option Z) (refs : list (Z * Z * bool)) : res item :=
   match refs with
   | [] => Err "ValueError"
-  | _ => Ok (Item CONTAINER title 0 None [(1, [2010])]          (* template_id='2010' *)
+  | _ => Ok (Item CONTAINER title 0 None ((1, [2010]) :: name_entry_attrs tx)   (* template_id='2010' *)
                ((match descr with Some _ => [Item TEXT 113012 1 None [] []] | None => [] end) ++
                 map ko_ref_item refs))
   end.
@@ -485,28 +502,28 @@ Definition run_roundtrip (c : sr_class) (a : sr_args) : val :=
 Definition run_from_dataset (c target : sr_class) (a : sr_args) : val :=
   vres parsed_val (bind (sr_init c a) (sr_from_dataset target true)).
 
-Definition run_ko (ev : list evd) (ts_ok : bool) (title : Z) (descr : option Z)
+Definition run_ko (ev : list evd) (ts_ok : bool) (title : Z) (tx : list Z) (descr : option Z)
            (refs : list (Z * Z * bool)) (queries : list Z) : val :=
   vres (fun d => VL [item_val (d_content d); refs_val (d_current d); refs_val (d_other d);
                      VL (map (fun u => vres (fun t => match t with (a, b, c) => VL [VZ a; VZ b; VZ c] end)
                                             (resolve_reference d u)) queries)])
-       (bind (ko_content title descr refs) (ko_init ev ts_ok)).
+       (bind (ko_content title tx descr refs) (ko_init ev ts_ok)).
 
 (* build a KO document, write it, (tamper,) KeyObjectSelectionDocument.from_dataset:
    content, evidence, resolve_reference and get_references of the PARSED document *)
-Definition run_ko_parse (ev : list evd) (title : Z) (descr : option Z) (refs : list (Z * Z * bool))
+Definition run_ko_parse (ev : list evd) (title : Z) (tx : list Z) (descr : option Z) (refs : list (Z * Z * bool))
            (tamper : Z) (queries : list Z) (vf : option vt) (cf : option Z) : val :=
   vres (fun d => VL [item_val (d_content d); refs_val (d_current d); refs_val (d_other d);
                      VL (map (fun u => vres (fun t => match t with (a, b, c) => VL [VZ a; VZ b; VZ c] end)
                                             (resolve_reference d u)) queries);
                      vres (fun l => VL (map item_val l)) (ko_get_references vf cf (d_content d))])
-       (bind (bind (ko_content title descr refs) (ko_init ev true))
+       (bind (bind (ko_content title tx descr refs) (ko_init ev true))
              (fun d => ko_from_dataset (fst (ko_tamper tamper d)) (snd (ko_tamper tamper d)))).
 
 (* srread of a written KO document: unsupported SOP class *)
-Definition run_ko_srread (ev : list evd) (title : Z) (refs : list (Z * Z * bool)) : val :=
+Definition run_ko_srread (ev : list evd) (title : Z) (tx : list Z) (refs : list (Z * Z * bool)) : val :=
   vres (fun cd => VZ (class_code (fst cd)))
-       (bind (bind (ko_content title None refs) (ko_init ev true)) srread).
+       (bind (bind (ko_content title tx None refs) (ko_init ev true)) srread).
 
 (* ==== references derived from a segmentation object ============================
    sr/content.py ReferencedSegment.from_segmentation,
